@@ -837,7 +837,28 @@ def gen_zonemd(ctx, rng):
                     continue
                 used.add((ty, covers))
                 rdss.append([ty, covers, 1, u(rng, 31), rds])
-            rng.shuffle(rdss)
+            # a signed zone: every RRset is followed by the RRSIG rdataset that covers it (dnspython
+            # files the RRSIGs of one name as one rdataset per covered type), so the covered types
+            # appear in insertion order, e.g. SOA(6) before NS(2) at the apex
+            if rng.random() < 0.6:
+                signed = []
+                for rds in rdss:
+                    signed.append(rds)
+                    ty = rds[0]
+                    if ty in (T["RRSIG"], T["SIG"]) or (T["RRSIG"], ty) in used or rng.random() < 0.15:
+                        continue
+                    sigs = distinct_rdatas(rng, 1, T["RRSIG"], origin, rng.choice([1, 1, 2]))
+                    for fs, args in sigs:
+                        fs[0] = struct.pack("!H", ty) + fs[0][2:]
+                        args[0] = ty
+                    if sigs:
+                        used.add((T["RRSIG"], ty))
+                        signed.append([T["RRSIG"], ty, 1, u(rng, 31), sigs])
+                rdss = signed
+                if rng.random() < 0.4:
+                    rng.shuffle(rdss)
+            else:
+                rng.shuffle(rdss)
             if rdss:
                 nodes.append([nm, rdss])
         rng.shuffle(nodes)
@@ -882,6 +903,29 @@ def gen_sweeps(ctx):
                                          % (len(tree), 1024 if ctx.tier == "thorough" else 300, n))
 
 
+def fixed_zonemd():
+    """a small signed zone in zone-file order: each RRset followed by its RRSIG (covers 6, 2, 1 / 16, 1)"""
+    ex = [b"Example", b""]
+
+    def sig(cov, n):
+        hdr = struct.pack("!HBBIIIH", cov, 8, 1, 300, 2, 1, 7)
+        return [[hdr, ex, bytes([n])], [cov, 8, 1, 300, 2, 1, 7, a_name(ex), bytes([n])]]
+
+    def raw(w):
+        return [[w], [[5, w]]]
+
+    for rel in (0, 1):
+        for halg in (1, 2):
+            def nm(*ls):
+                return list(ls) if rel else list(ls) + ex
+            soa = [[[b"ns"] + ex, [b"h"] + ex, struct.pack("!IIIII", 7, 1, 2, 3, 4)], [a_name([b"ns"] + ex), a_name([b"h"] + ex), 7, 1, 2, 3, 4]]
+            ns = [[[b"NS"] + ex], [a_name([b"NS"] + ex)]]
+            apex = [[6, 0, 1, 300, [soa]], [46, 6, 1, 300, [sig(6, 1)]], [2, 0, 1, 300, [ns]], [46, 2, 1, 300, [sig(2, 2)]],
+                    [1, 0, 1, 300, [raw(b"\x01\x02\x03\x04")]], [46, 1, 1, 300, [sig(1, 3), sig(1, 4)]]]
+            www = [[16, 0, 1, 60, [raw(b"\x02hi")]], [46, 16, 1, 60, [sig(16, 5)]], [1, 0, 1, 60, [raw(b"\x0a\x00\x00\x01")]], [46, 1, 1, 60, [sig(1, 6)]]]
+            yield "zonemd", [7, ex, rel, [[nm(b"WWW"), www], [nm(), apex]], halg, 1]
+
+
 def cases(ctx):
     _ensure_gen(ctx)
     rng = ctx.rng
@@ -894,6 +938,7 @@ def cases(ctx):
     yield from gen_nsec3(ctx, rng)
     yield from gen_bitmap(ctx, rng)
     yield from gen_signzone(ctx, rng)
+    yield from fixed_zonemd()
     yield from gen_zonemd(ctx, rng)
 
 
